@@ -2,7 +2,7 @@
     Values are (kind, payload): every argument carries a distinct tag in its payload so that the
     slot it ends up in is observable; defaults are rendered from the valdef. *)
 From Coq Require Import ExtrOcamlBasic.
-From RS Require Import Base.Bytes Base.Outcome Bind.Types Bind.Binder Bind.BindSpec.
+From RS Require Import Base.Bytes Base.Outcome Bind.Types Bind.Binder Bind.BindSpec Bind.Handover.
 From RSGen Require Import Catalogue.
 
 Inductive payload := PTag (n : N) | PBytes (b : bytes) | PNone.
@@ -32,4 +32,4 @@ Definition bind_model (f : funcdef) (c : list (option string * tval)) : outcome 
 Definition bind_reference (f : funcdef) (c : list (option string * tval)) : outcome (list tval * list tval) :=
   bind_spec tval tv_type tv_of_valdef f c.
 
-Extraction "rsmodel.ml" bind_model bind_reference catalogue wf_sig compatible_with compat_spec arg_compatible param_accepts all_vtypes.
+Extraction "rsmodel.ml" bind_model bind_reference catalogue wf_sig compatible_with compat_spec arg_compatible param_accepts all_vtypes conv_defined.
